@@ -5,6 +5,7 @@ CONSTANTS URLS = {"A","B","C","D"}
  Parse <- cParse
  MaxThr = 6
  Prog <- cProg
+ CacheInit <- cCache
  defaultInitValue = "dflt"
 CONSTRAINT Reached
 POSTCONDITION Accepted
